@@ -42,7 +42,7 @@ CLAIMED = {
             "Every sequence of actor durations from {0,.3p,.7p,1.2p,2.6p} of length 3 (4 thorough) x outcome pattern x "
             "deferred_until setting x period: exactly one successor per iteration, counter 0, timestamp restarted, "
             "now < next <= now+p, next >= previous scheduled time + p, never started before its scheduled time; "
-            "every pair of durations again with results stored, the result store working or down for the whole run.",
+            "every pair of durations again with results stored, the result store working or down for the whole run, and with a job created a day before the first worker starts.",
             FAKES + " cron recurrences excluded (croniter not installed).", "DESIGN.md 4 C06"),
     "C10": ("model_checking", "exhaustive matrix M x backlog x durations x tasks_limit x queues x broker, plus testing plugin",
             "Each cell is a real Worker.run() that has to stop by itself: executions started <= M, run() returns after "
